@@ -29,25 +29,25 @@ where
         // and write that to the fn write_xml(&self, writer: &mut W) -> WriterResult<()> {
 
         writeln!(writer, "Rc::new(restrictions::Restrictions {{")?;
-        if let Some(min_inclusive) = &self.min_inclusive {
+        if let Some(Ok(min_inclusive)) = self.min_inclusive.as_ref().map(|v| v.trim().parse::<i32>()) {
             writeln!(writer, "   min_inclusive: Some({min_inclusive}), ")?;
         }
-        if let Some(max_inclusive) = &self.max_inclusive {
+        if let Some(Ok(max_inclusive)) = self.max_inclusive.as_ref().map(|v| v.trim().parse::<i32>()) {
             writeln!(writer, "   max_inclusive: Some({max_inclusive}), ")?;
         }
-        if let Some(min_exclusive) = &self.min_exclusive {
+        if let Some(Ok(min_exclusive)) = self.min_exclusive.as_ref().map(|v| v.trim().parse::<i32>()) {
             writeln!(writer, "   min_exclusive: Some({min_exclusive}), ")?;
         }
-        if let Some(max_exclusive) = &self.max_exclusive {
+        if let Some(Ok(max_exclusive)) = self.max_exclusive.as_ref().map(|v| v.trim().parse::<i32>()) {
             writeln!(writer, "   max_exclusive: Some({max_exclusive}), ")?;
         }
-        if let Some(length) = &self.length {
+        if let Some(Ok(length)) = self.length.as_ref().map(|v| v.trim().parse::<usize>()) {
             writeln!(writer, "   length: Some({length}), ")?;
         }
-        if let Some(min_length) = &self.min_length {
+        if let Some(Ok(min_length)) = self.min_length.as_ref().map(|v| v.trim().parse::<usize>()) {
             writeln!(writer, "   min_length: Some({min_length}), ")?;
         }
-        if let Some(max_length) = &self.max_length {
+        if let Some(Ok(max_length)) = self.max_length.as_ref().map(|v| v.trim().parse::<usize>()) {
             writeln!(writer, "   max_length: Some({max_length}), ")?;
         }
 
